@@ -98,6 +98,9 @@ def extras(fmt, add):
     add(nsteps=12, shape=[1, 2, 1])
     add(nsteps=9, shape=[2, 2, 1])
     add(nsteps=13, shape=[2, 2, 2])
+    # many layers (more records per time step than any block size a reader might scan by)
+    add(nsteps=2, shape=[2, 1, 64])
+    add(nsteps=2, shape=[1, 2, 71])
     if fmt in ('uamiv', 'lateral_boundary'):
         # hour-24 stamping of steps that end at midnight
         for n in (1, 2, 3):
